@@ -208,7 +208,7 @@ static void sweep_item(uint64_t i, CaseInfo& ci) {
   REQUIRE(mpz_jacobi(a, b) == e, "mpz_kronecker(%ld,%ld): expected %d", av, bv, e); REQUIRE(mpz_kronecker_si(a, bv) == e, "mpz_kronecker_si(%ld,%ld)", av, bv); REQUIRE(mpz_si_kronecker(av, b) == e, "mpz_si_kronecker(%ld,%ld)", av, bv);
   if (bv >= 0) REQUIRE(mpz_kronecker_ui(a, (unsigned long)bv) == e, "mpz_kronecker_ui(%ld,%ld)", av, bv); if (av >= 0) REQUIRE(mpz_ui_kronecker((unsigned long)av, b) == e, "mpz_ui_kronecker(%ld,%ld)", av, bv);
   if (bv > 2 && (bv & 1) && ref::is_prime_u64((uint64_t)bv)) REQUIRE(mpz_legendre(a, b) == e, "mpz_legendre(%ld,%ld)", av, bv);
-  if (av != 0 && bv > 0) { unsigned long r = mpn_gcd_1((const mp_limb_t[]){(mp_limb_t)std::labs(av)}, 1, (mp_limb_t)bv); REQUIRE(Int::from_u64(r) == G, "mpn_gcd_1(%ld,%ld)", av, bv); }
+  if (av != 0 && bv > 0) { mp_limb_t one_limb[1] = {(mp_limb_t)std::labs(av)}; unsigned long r = mpn_gcd_1(one_limb, 1, (mp_limb_t)bv); REQUIRE(Int::from_u64(r) == G, "mpn_gcd_1(%ld,%ld)", av, bv); }
 }
 // rare class: operands of 13800..30000 limbs (above HGCD_REDUCE_THRESHOLD for the hgcd calls of gcd and gcdext), random or with a long
 // run of all-ones limbs in the upper half of the smaller operand, both multiples of a planted G; gcd certified by gcdext's cofactors
